@@ -5,7 +5,7 @@ Import ListNotations.
 Local Open Scope Z_scope.
 
 Definition mk_frame (a : arch) (k : cc_kind) (fp calls avx avx512 : bool) (dirty : quad) (lsize lalign csize calign sa args : Z) : frame_in :=
-  mkfi a (cc_of_kind k) args fp calls false avx avx512 false false false dirty lsize lalign csize calign sa false.
+  mkfi a (cc_of_kind k) args fp calls false avx avx512 false false false dirty lsize lalign csize calign sa false false.
 
 Lemma wf_in_mk a k fp calls avx avx512 dirty lsize lalign csize calign sa args :
   kind_arch k = a -> 0 <= lsize -> 0 <= csize -> align_ok lalign -> align_ok calign -> 0 <= args ->
@@ -134,7 +134,7 @@ Qed.
 
 (* fixed tree variant: an AAPCS64 frame with a user SA register (x9) and preserved FP is in the scope of the round-trip theorem *)
 Definition ex_a64_sa_fixed : frame_in :=
-  mkfi A64 (cc_of_kind KA64Cdecl) 16 true false false false false false false false (mkq (mask_of [19; 20]) 0 0 0) 24 16 0 0 9 true.
+  mkfi A64 (cc_of_kind KA64Cdecl) 16 true false false false false false false false (mkq (mask_of [19; 20]) 0 0 0) 24 16 0 0 9 false true.
 
 Lemma ex_a64_sa_fixed_sat :
   exists f, wf_in f /\ fi_arch f = A64 /\ qget (cc_srsize (fi_cc f)) 1 = 8 /\ fin_has_da f = false /\
